@@ -19,7 +19,7 @@ package nut05
 //@   ensures @inverse [C20] result != Unknown ==> statestr(result) == state
 //@   ensures @unknown [C20] state != "UNPAID" && state != "PENDING" && state != "PAID" ==> result == Unknown
 
-//@ struct tempQuote [C20] Quote Request Amount Unit FeeReserve State Expiry Preimage Change
+//@ struct nut05.tempQuote [C20] Quote Request Amount Unit FeeReserve State Expiry Preimage Change
 //@ func (*PostMeltQuoteBolt11Response).MarshalJSON
 //@   tags C20
 //@   safety C06 C20
